@@ -14,6 +14,7 @@ pub const TOKENS: &[&str] = &[
     "=_{", "={", "a", "a =", "a = { a }", "b = { \"x\" }", "-", "-0", "-1", "0", "é", "🎈", "\u{0}", "\r\n", "\n", " ", "\t", "\\", ",", "ASCII_DIGIT", "LETTER", "self",
     "PUSH", "PUSHa", "PEEKa", "\u{feff}", "#PUSHED = ", "#PUSH", "#PUSH_a", "#PEEK = ", "#_ = ", "#a1_ = ", "#1", "# t = ", "#t=#u=", "PUSH_LITERAL", "PUSHED", "PUSH_x = { \"a\" }",
     "\"é\\u{D800}\"", "'\\u{110000}'", "^\"a→\\u{110000}\"", "\"😀b\\u{DFFF}\"", "\"ééé\\q\"", "'→\\x'", "(\"a\"{2} ~ \":\"){1,3}", "((ASCII_DIGIT{1,4} ~ \"-\")? ~ \"_\"){2,5}",
+    "/// doc of rule\r\n", "//! top doc\r\n", "/// d\r", "// c\r\n", "/* c\r\n */", "\"\\u{10FFFF}\"", "'\\u{00001F}'", "\"\\u{0041}\\u{10ffff}\"",
     "POPx", "ANYa", "_PUSH", "a_PUSH", "'\\u{41}'", "\"\\x41\\n\\t\\0\\'\"", "{ 1 , 2 }", "{,}", "{ }", "PEEK [ 1 .. ]", "PEEK[..-1]", "..", "...", "'a'..='z'", "=", "==",
 ];
 pub const BIGNUMS: &[&str] = &[
@@ -130,7 +131,13 @@ pub fn counts_in_scope(text: &str) -> bool {
 
 pub fn mutate(base: &str, rng: &mut Rng) -> (String, &'static str) {
     let mut cs: Vec<char> = base.chars().collect();
-    let kind = match rng.below(9) {
+    let kind = match rng.below(10) {
+        9 => {
+            // something in front of everything (byte-order mark, blank lines, a CRLF doc line)
+            let pre: Vec<char> = rng.pick(&["\u{feff}", "\u{feff}", "\n\n", "\r\n", "//! d\r\n", "\u{feff}//! d\n", " "]).chars().collect();
+            cs.splice(0..0, pre);
+            "prefix"
+        }
         0 => {
             if !cs.is_empty() {
                 let i = rng.below(cs.len());
